@@ -79,6 +79,7 @@ type verifCreds struct {
 	log     *[]verifCall
 	cluster string
 	authz   bool
+	caFails bool // the CA-only lookup finds nothing (secret without a CA entry)
 }
 
 func (c verifCreds) rec(what, name, ns string) {
@@ -92,6 +93,9 @@ func (c verifCreds) GetCertInfo(name, ns string) (*credscontroller.CertInfo, err
 
 func (c verifCreds) GetCaCert(name, ns string) (*credscontroller.CertInfo, error) {
 	c.rec("ca", name, ns)
+	if c.caFails {
+		return nil, errors.New("no ca entry")
+	}
 	return &credscontroller.CertInfo{Cert: []byte("c")}, nil
 }
 
@@ -109,12 +113,13 @@ func (c verifCreds) Authorize(sa, ns string) error {
 }
 
 type verifMulti struct {
-	log   *[]verifCall
-	authz bool
+	log     *[]verifCall
+	authz   bool
+	caFails bool
 }
 
 func (m verifMulti) ForCluster(id cluster.ID) (credscontroller.Controller, error) {
-	return verifCreds{log: m.log, cluster: string(id), authz: m.authz}, nil
+	return verifCreds{log: m.log, cluster: string(id), authz: m.authz, caFails: m.caFails}, nil
 }
 func (m verifMulti) AddSecretHandler(func(k kind.Kind, name, namespace string)) {}
 
@@ -162,10 +167,11 @@ func VerifC11SDSGate() {
 	verifiedRef := vp.Choice("verifiedReference", 2) == 1
 	warm := vp.Choice("cacheWarm", 2) == 1
 	forced := vp.Choice("forced", 2) == 1
+	caFails := vp.Choice("caLookupFails", 2) == 1
 
 	var calls []verifCall
 	var gets []string
-	gen := &SecretGen{secrets: verifMulti{log: &calls, authz: authz}, cache: verifSDSCache{gets: &gets, warm: warm}, configCluster: "config", meshConfig: &mesh.MeshConfig{}}
+	gen := &SecretGen{secrets: verifMulti{log: &calls, authz: authz, caFails: caFails}, cache: verifSDSCache{gets: &gets, warm: warm}, configCluster: "config", meshConfig: &mesh.MeshConfig{}}
 	proxy := &model.Proxy{ID: "p", Metadata: &model.NodeMetadata{ClusterID: "remote"}, MergedGateway: &model.MergedGateway{VerifiedCertificateReferences: sets.New[string]()}}
 	if hasIdentity {
 		proxy.VerifiedIdentity = &spiffe.Identity{TrustDomain: "td", Namespace: verNs, ServiceAccount: verSA}
